@@ -22,6 +22,7 @@ for f in confirm_files:
                 pass
 
 res = collections.OrderedDict()
+trials = {}
 for f in wave_files:
     cur = None
     for line in open(f, errors="replace"):
@@ -33,6 +34,7 @@ for f in wave_files:
         m = re.match(r"(C\d\d) exit=(\d+)\s*(?:signature:\s*(.*))?", line)
         if m and cur:
             res[cur][m.group(1)] = (int(m.group(2)), (m.group(3) or "").strip(), os.path.basename(f))
+            trials.setdefault((cur, m.group(1)), []).append((int(m.group(2)), (m.group(3) or "").strip(), os.path.basename(f)))
 
 NOTES = json.load(open("/verif/seeded/notes.json")) if os.path.exists("/verif/seeded/notes.json") else {}
 
@@ -57,8 +59,9 @@ for ch in sorted(set(list(res.keys()) + list(confirm.keys()))):
     ran = []
     if c:
         ran.append(f"demo with the change: {c.get('demo_with','')} (exit {c.get('demo_with_exit')}); unit tests (cargo test --lib) with the change: {c.get('lib','')} (exit {c.get('lib_exit')}); demo without the change: {c.get('demo_without','')} (exit {c.get('demo_without_exit')}) — in a scratch worktree of /repo HEAD")
-    for k, v in r.items():
-        ran.append(f"git -C /repo apply patch.diff; ./check {k} quick -> exit {v[0]}{' ' + v[1] if v[1] else ''} [{v[2]}]; git -C /repo checkout -- .")
+    for k in r:
+        for v in trials.get((ch, k), []):
+            ran.append(f"git -C /repo apply patch.diff; ./check {k} quick -> exit {v[0]}{' ' + v[1] if v[1] else ''} [{v[2]}]; git -C /repo checkout -- .")
     if confirmed:
         dst = f"/verif/seeded/{ch}"
         os.makedirs(dst, exist_ok=True)
